@@ -415,6 +415,68 @@ def Dep (_ : Env) (Q : SeqProv → List Nat → Prop) (s : SrcSt) : Prop := Q s.
         "number provider and the list of sequence numbers issued so far alone — stated as the preservation of\n"
         "an arbitrary statement `Q` about the two (C19).", only=seq_only,
         params="(Q : SeqProv → List Nat → Prop)")
+    ORD_DEF = '''/-- one indication against the transaction currently open in the log (`none` = out of order) -/
+def ordStep (o : Option Tid) : Ind → Option (Option Tid)
+  | .tx t _ => some (some t)
+  | .eofSent t => if o = some t then some o else none
+  | .finished (some t) _ => if o = some t then some none else none
+  | .finished none _ => none
+  | _ => some o
+
+/-- scan of the indication log: the transaction open at its end, `none` if some indication was out of
+order (an EOF-Sent or Transaction-Finished for a transaction that is not the open one) -/
+def ordScan (l : List Ind) : Option (Option Tid) :=
+  l.foldl (fun acc i => acc.bind fun o => ordStep o i) (some none)
+
+theorem ordScan_snoc (l : List Ind) (i : Ind) : ordScan (l ++ [i]) = (ordScan l).bind fun o => ordStep o i := by
+  simp [ordScan, List.foldl_append]
+
+theorem ordScan_snoc_tx (l : List Ind) (t : Tid) (o : Option Tid) (h : ordScan l ≠ none) :
+    ordScan (l ++ [.tx t o]) = some (some t) := by
+  cases hs : ordScan l with
+  | none => exact absurd hs h
+  | some x => simp [ordScan_snoc, hs, ordStep]
+
+/-- the log is in causal order, and the transaction the handler works on is the one open in the log -/
+def OrdOk (_ : Env) (s : SrcSt) : Prop :=
+  ordScan s.inds ≠ none ∧ ∀ t, s.p.tid = some t → ordScan s.inds = some (some t)
+'''
+    EMIT_ORD = '''theorem emitInd_o (env : Env) (i : Ind) (h : ∀ o, ordStep o i = some o) :
+    Preserves (OrdOk env) (emitInd i) := by
+  unfold emitInd
+  refine Preserves.modify (fun s hs => ?_)
+  obtain ⟨h1, h2⟩ := hs
+  cases hsc : ordScan s.inds with
+  | none => exact absurd hsc h1
+  | some o =>
+    refine ⟨by simp [ordScan_snoc, hsc, h], fun t ht => ?_⟩
+    have := h2 t ht
+    rw [hsc] at this
+    simp [ordScan_snoc, hsc, h, this]'''
+    MV = '''open Std.Do in
+set_option mvcgen.warning false in
+theorem %s_o (env : Env) %s:
+    Preserves (OrdOk env) (%s) := by
+  apply preserves_of_triple
+  mvcgen [%s]
+  all_goals (simp +zetaDelta only [OrdOk, ordScan_snoc] at *; grind [ordStep])'''
+    ov = {"emitInd": EMIT_ORD,
+          "resetInternal": MV % ("resetInternal", "(b : Bool) ", "resetInternal b", "resetInternal"),
+          "prepareEofPdu": MV % ("prepareEofPdu", "(c : List UInt8) ", "prepareEofPdu env c",
+                                 "prepareEofPdu, getP, addPacket, emitInd"),
+          "noticeOfCompletion": MV % ("noticeOfCompletion", "", "noticeOfCompletion env",
+                                      "noticeOfCompletion, getP, modP, emitInd, resetInternal"),
+          "transactionStart": (MV % ("transactionStart", "", "transactionStart env",
+                                     "transactionStart, getP, modP, emitInd")).replace(
+              "simp +zetaDelta only [OrdOk, ordScan_snoc] at *; grind [ordStep]",
+              "simp +zetaDelta only [OrdOk] at *; first | grind | (obtain ⟨h1, h2⟩ := ‹_ ∧ _›; simp [ordScan_snoc_tx _ _ _ h1])")}
+    files["InvSourceOrder.lean"] = gen(
+        "Source", "Order", "OrdOk", "o", ORD_DEF,
+        "first | (simp_all [OrdOk]; done) | (simp_all [OrdOk, ordScan_snoc, ordStep]; done) | skip", ov,
+        {},
+        "Source handler: the indication log is in causal order — Transaction, then EOF-Sent (possibly repeated),\n"
+        "then Transaction-Finished, each for the transaction opened by the last Transaction indication (C15).",
+        inline=("modP",), extra_imports="import CfdpVerif.Lemmas.StdDo")
     for n, t in files.items():
         (OUT / n).write_text(t)
         print("wrote", n)
